@@ -291,6 +291,21 @@ func (r *replayer) compareObs(w *World, path []Action, a *Action, p *Proj, o *Ob
 			missing = append(missing, k)
 		}
 	}
+	if !o.ReopenDoneErr {
+		got := map[string]bool{}
+		for _, k := range o.ReopenDone {
+			got[k] = true
+		}
+		var skipped []string
+		for _, k := range er {
+			if !got[k] {
+				skipped = append(skipped, k)
+			}
+		}
+		if len(skipped) > 0 {
+			r.mismatch(Mismatch{Props: []string{"C20"}, What: "Broker.Reopen with a context that is already done returned nil although it skipped nodes of registered pipelines", Path: path, Action: a, Expected: er, Observed: map[string]interface{}{"reopened": o.ReopenDone, "err": false}})
+		}
+	}
 	if len(missing) > 0 || o.ReopenErr {
 		r.mismatch(Mismatch{Props: []string{"C20"}, What: "Broker.Reopen coverage", Path: path, Action: a, Expected: er, Observed: map[string]interface{}{"reopened": o.Reopen, "err": o.ReopenErr}})
 	}
